@@ -2,6 +2,7 @@
 Require Extraction.
 Require ExtrOcamlBasic.
 From Coq Require Import ZArith QArith.
+From TW Require Import All.
 From TW Require Import Chars Esc Word Separators Splitters Num FirstFit OptFit Wrap Refill Indent Columns Custom.
 Extraction Language OCaml.
 Extraction "model.ml"
@@ -16,4 +17,5 @@ Extraction "model.ml"
   find_words split_points run_alg ofit_dp word_frag slow_path wrap_single_line wrap fill fill_slow fill_inplace
   unfill refill non_empty_lines
   indent dedent
-  wrap_columns custom3.
+  wrap_columns custom3
+  wf_strip.
